@@ -68,6 +68,26 @@ def ownedMutables : List (Str × Str) := [
   ("serialization.py".toList, "_TYPE_REGISTRY".toList)
 ]
 
+/-- one occurrence, inside a function, of a module-level container that some function writes -/
+structure CacheAccess where
+  file   : Str
+  func   : Str         -- innermost enclosing function, qualified by its enclosing functions
+  cell   : Str
+  how    : Str         -- getitem | setitem | delitem | contains | method:<name> | name
+  key    : Str         -- the key expression of the access ("" when the access has none: `len(C)`, `C.popitem()`, ...)
+  guard  : Str         -- `L` of the innermost enclosing `with L:` block ("" = none)
+  params : List Str    -- parameters of the function that the function never rebinds
+  deriving DecidableEq, Repr
+
+/-- memo caches keyed by the input of the cached function: every key expression must be a whole parameter -/
+def keyedCaches : List Str := ["_FONT_CACHE".toList, "_ROUND_KEY_CACHE".toList]
+
+/-- cells whose compound operations rely on a lock: (cell, lock) -/
+def lockedCells : List (Str × Str) := [
+  ("_ROUND_KEY_CACHE".toList, "_ROUND_KEY_CACHE_LOCK".toList),
+  ("_CHAR_MAP_PATCH_ORIGINALS".toList, "_CHAR_MAP_PATCH_LOCK".toList)
+]
+
 /-- a module-level container has a writer in the inventory -/
 def hasWriter (sites : List Site) (m : Str × Str × Str) : Bool :=
   sites.any (fun s => s.file == m.1 && s.cell == m.2.1 && (s.kind == "mutate".toList || s.kind == "global-rebind".toList))
